@@ -175,13 +175,24 @@ def run_check(pid, tier, seed):
     discharged = len([1 for n, ax in thms if set(ax) <= ALLOWED_AXIOMS]) if build_ok else 0
 
     # 4. correspondence
-    cases = list(mod.cases(rng, tier))
+    try:
+        cases = list(mod.cases(rng, tier))
+    except Exception as e:
+        # a generator that consults the implementation (captured draws, shapes) can fail on a changed tree: that is a broken
+        # correspondence (the search below looks for a failing input), not an infrastructure error
+        if os.environ.get('SYNAPGRAD_REPO', '/repo') == '/repo' and os.environ.get('VERIF_STRICT_GEN') == '1':
+            raise
+        broken.append({'kind': 'correspondence', 'what': f'case generation failed against this tree: {e!r}', 'detail': traceback.format_exc()[-1500:]})
+        cases = []
     stats = {'evaluations': 0, 'mismatches': 0}
     lines, owner = [], []
     impl_out = []
     for ci, c in enumerate(cases):
-        io = mod.impl(c)
-        assert len(io) == len(c['lines']), (c, io)
+        try:
+            io = mod.impl(c)
+            assert len(io) == len(c['lines']), (c.get('desc'), io)
+        except Exception as e:
+            io = [f'harness-error: {e!r}'[:200]] * len(c['lines'])
         impl_out.append(io)
         tm_ = getattr(mod, 'to_model', None)        # optional: how a protocol line is spelled for the model (e.g. dtypes it does not distinguish)
         lines += ['reset'] + ([tm_(l) for l in c['lines']] if tm_ else c['lines'])
@@ -301,7 +312,7 @@ def run_check(pid, tier, seed):
         'distinct_nontrivial': len(nontriv),
         'rule': getattr(mod, 'RULE', ''),
         'samples': [c.get('desc', c['lines'][:6]) for c in cases[:3]] + ([cases[-1].get('desc', cases[-1]['lines'][:6])] if len(cases) > 3 else []),
-        'distribution': mod.distribution(cases) if hasattr(mod, 'distribution') else {},
+        'distribution': (mod.distribution(cases) if cases else {'cases': 0}) if hasattr(mod, 'distribution') else {},
         'correspondence_mismatches': len(mismatching),
         'unproved_ops': getattr(mod, 'UNPROVED', []),
         'broken': broken,
